@@ -48,7 +48,14 @@ SliceTests == { E("slice", "min", {"min"}, {"min"}, TRUE), E("slice", "max", {"m
                 E("slice", "contains", {"contained"}, {"contained"}, TRUE), E("slice", "required", {"required"}, {}, TRUE) }
 OtherTests == { E("struct", "coerce", {"coerce"}, {}, FALSE), E("struct", "invalid_json", {"invalid_json"}, {}, FALSE), E("struct", "invalid_form", {"invalid_form"}, {}, FALSE),
                 E("string", "ptr.not_nil", {"not_nil"}, {}, TRUE), E("number", "ptr.not_nil", {"not_nil"}, {}, TRUE), E("struct", "ptr.not_nil", {"not_nil"}, {}, TRUE),
-                E("custom", "custom", {"", "custom"}, {}, TRUE) }
+                E("custom", "custom", {"", "custom"}, {}, TRUE),
+                \* a front-end failure below a top-level pointer is completed like any other issue
+                E("struct", "ptr.invalid_json", {"invalid_json"}, {}, FALSE), E("struct", "ptr.invalid_form", {"invalid_form"}, {}, FALSE),
+                \* every public entry point (Parse and Validate of every schema kind) resolves messages the same way
+                E("number", "validate.gt", {"gt"}, {"gt"}, TRUE), E("number", "struct.validate.gt", {"gt"}, {"gt"}, TRUE),
+                E("number", "slice.validate.gt", {"gt"}, {"gt"}, TRUE), E("number", "ptr.validate.gt", {"gt"}, {"gt"}, TRUE),
+                E("number", "preprocess.parse.gt", {"gt"}, {"gt"}, TRUE), E("number", "preprocess.validate.gt", {"gt"}, {"gt"}, TRUE),
+                E("custom", "custom.validate", {"", "custom"}, {}, TRUE) }
 Entries == StrTests \cup NumTests \cup BoolTests \cup TimeTests \cup SliceTests \cup OtherTests
 
 TestCfgs == {"none", "message", "messagefunc"}
